@@ -46,6 +46,14 @@ def setup_worker(tier, seed):
     M.RULES.install()
 
 
+def _has_nonstring_object_column(v):
+    cols = [v[c] for c in v.columns] if isinstance(v, pd.DataFrame) else ([v] if isinstance(v, pd.Series) else [])
+    for s in cols:
+        if s.dtype == object and any(not isinstance(x, str) for x in s.dropna().tolist()):
+            return True
+    return False
+
+
 def ancestors(prog, out):
     ns = len(prog["sources"])
     seen, st = set(), [out]
@@ -68,7 +76,8 @@ def cut(v, kind):
         parts = v.to_delayed()
         o = v.optimize()
         divs = o.divisions if o.known_divisions else None
-        kw = {"meta": v._meta}
+        # verify_meta=False: data-dependent promotions (bool -> object after an outer join) are pandas' own, not a cut artefact
+        kw = {"meta": v._meta, "verify_meta": False}
         if divs is not None:
             kw["divisions"] = divs
         return dx.from_delayed(parts, **kw)
@@ -115,6 +124,11 @@ def run_case(case):
                 continue
             if nk in ("frame", "series") and not vj.known_divisions:
                 nk += "-unknown-divisions"
+            if kind != "persist" and _has_nonstring_object_column(b.pd_vals[j].pd):
+                # dask treats every object column as strings when it (re)imports data (from_pandas, from_map, from_delayed):
+                # an object column holding e.g. bools is converted by the import, by documented design of convert-string
+                bump("cut_skipped_nonstring_object_column")
+                continue
             try:
                 with M.Guard():
                     c = cut(vj, kind)
@@ -157,7 +171,8 @@ def run_case(case):
                 break
             # quantile divisions of a set_index / sort_values AFTER the cut are sampled from its input partitioning, which
             # the cut legitimately changes (it blocks push-downs below the sort): divisions are then not comparable
-            sort_after_cut = any("sort" in programs.OPS[prog["steps"][si - ns]["op"]].tags for si in range(max(j + 1, ns), ns + len(prog["steps"])))
+            # ... and the optimizer may push filters/projections below a sort of the uncut program, which changes the sample too
+            sort_after_cut = any("sort" in programs.OPS[st_["op"]].tags for st_ in prog["steps"])
             if sort_after_cut:
                 bump("divisions_not_comparable_sort_after_cut")
             elif _divs(oc.expr) != ref_divs and kind != "legacy" or (kind == "legacy" and _divs(oc.expr) != ref_divs and oc.known_divisions and ref_divs[0] is not None):
